@@ -5,7 +5,10 @@
     - integer expressions: literal, variable, unary minus, + - * / % & | ^
     - boolean expressions: literal, comparison of integers, !, &&, ||   (no boolean variables)
     - statements: [x = e], [x := e], [x op= e], [x++ / x--], [fmt.Println(e)], block,
-      [if] in its 4 forms, [for] in its 8 forms, unlabelled [break] / [continue]
+      [if] in its 4 forms, [for] in its 8 forms, unlabelled [break] / [continue],
+      [switch] with a tag (integer expression) or without (boolean cases), optional init statement,
+      several expressions per clause, [default] anywhere, [fallthrough] (a flag of the clause: it is
+      the last statement of the clause body), [break] inside a clause
     A program is the body of [main].  Variables are numbered; the harness prints variable [n] as [xn]. *)
 From Coq Require Export ZArith List Bool Lia.
 Export ListNotations.
@@ -29,6 +32,15 @@ Inductive bexp :=
 | BAnd (a b : bexp)
 | BOr (a b : bexp).
 
+(** The expression list of a case clause: [default], integer expressions (switch with a tag) or
+    conditions (switch without a tag). *)
+Inductive cexprs :=
+| CDefault
+| CInts (l : list aexp)
+| CBools (l : list bexp).
+
+(** [SSwitch init tag cls]: every element of [cls] is an [SCase]; an [SCase] occurs nowhere else
+    (both checked by [Wf.wf]; the harness only writes such programs). *)
 Inductive stmt :=
 | SAssign (x : ident) (e : aexp)
 | SDefine (x : ident) (e : aexp)
@@ -39,7 +51,9 @@ Inductive stmt :=
 | SIf (init : option stmt) (c : bexp) (t : list stmt) (e : option (list stmt))
 | SFor (init : option stmt) (c : option bexp) (post : option stmt) (body : list stmt)
 | SBreak
-| SContinue.
+| SContinue
+| SSwitch (init : option stmt) (tag : option aexp) (cls : list stmt)
+| SCase (ce : cexprs) (body : list stmt) (ft : bool).
 
 Definition program := list stmt.
 
